@@ -50,6 +50,7 @@ namespace occa {
     template <>
     occaType newOccaType(const occa::primitive &value) {
       switch(value.type) {
+        case occa::primitiveType::bool_   : return newOccaType<bool>(value);
         case occa::primitiveType::int8_   : return newOccaType<int8_t>(value);
         case occa::primitiveType::uint8_  : return newOccaType<uint8_t>(value);
         case occa::primitiveType::int16_  : return newOccaType<int16_t>(value);
@@ -67,6 +68,7 @@ namespace occa {
     occaType newOccaType(const occa::primitive &value,
                          const int type) {
       switch(type) {
+        case occa::c::typeType::bool_   : return newOccaType<bool>(value);
         case occa::c::typeType::int8_   : return newOccaType<int8_t>(value);
         case occa::c::typeType::uint8_  : return newOccaType<uint8_t>(value);
         case occa::c::typeType::int16_  : return newOccaType<int16_t>(value);
